@@ -143,7 +143,8 @@ static std::vector<std::string> hist_gen(const GenArgs &ga) {
     nops = 5 + (int)sw.below(thorough ? 56 : 36);
     maxlen = sw.chance(1, 4) ? 40 : 10;
     mix = {{"new", 14}, {"compile", 26}, {"take", 8}, {"run", 22}, {"runc", 12}, {"freep", 6}, {"freec", 5},
-           {"reset", 3}, {"policy", faults ? 4 : 0}, {"append", 3}};
+           {"reset", 3}, {"policy", faults ? 4 : 0}, {"append", 3}, {"debug", 2}};
+    if (sw.chance(1, 4)) debug_env = (int)sw.below(6);
   } else if (P == "C09") {
     oracles = "res,layout,bytes,reuse,growth";
     faults = sw.chance(1, 5);
@@ -155,7 +156,7 @@ static std::vector<std::string> hist_gen(const GenArgs &ga) {
     rawalloc = sw.chance(2, 3);
     poison = false;
     mix = {{"new", 16}, {"compile", 26}, {"take", 9}, {"run", 8}, {"runc", 6}, {"freep", 10}, {"freec", 9},
-           {"reset", 3}, {"rawalloc", rawalloc ? 12 : 0}, {"freeall", 1}, {"policy", faults ? 2 : 0}};
+           {"reset", 3}, {"rawalloc", rawalloc ? 12 : 0}, {"freeall", 1}, {"policy", faults ? 2 : 0}, {"debug", 2}, {"append", 3}};
   } else if (P == "C16") {
     oracles = "res,growth,heap,lsan,fd";
     static const char *codes[] = {"-", "-", "-", "emulate", "backup", "debug", "backup,emulate"};
@@ -167,6 +168,7 @@ static std::vector<std::string> hist_gen(const GenArgs &ga) {
     maxlen = 14;
     mix = {{"new", 14}, {"compile", 24}, {"take", 9}, {"run", 14}, {"runc", 9}, {"freep", 9}, {"freec", 7},
            {"reset", 7}, {"debug", 2}, {"append", 6}, {"rawalloc", sw.chance(1, 3) ? 8 : 0}, {"parse", use_corpus ? 6 : 0}};
+    if (sw.chance(1, 4)) debug_env = (int)sw.below(6);
   } else {  // C17
     oracles = "det";
     static const char *codes[] = {"-", "-", "-", "-", "debug"};
